@@ -176,6 +176,8 @@ PROPS = {
     "C06": {
         "harnesses": [
             {"name": "queue_ms", "quick": 800000, "thorough": 4000000, "fuzz_runs": 600000, "weight": 2},
+            # BasketQueue only: its basket path needs two exact pre-emptions plus a thread order, too rare when diluted over 22 variants; generated with the thorough tier's bounds in both tiers
+            {"name": "queue_ms", "variants": [6, 7, 8, 9, 18, 19], "bounds": "thorough", "quick": 500000, "thorough": 1500000, "fuzz_runs": 0, "weight": 2},
             {"name": "fc_containers", "variants": list(range(0, 25)), "quick": 18000, "thorough": 200000, "fuzz_runs": 60000, "weight": 2},
         ],
         "libs": BOOST,
